@@ -94,7 +94,7 @@ def scale_exponent(ctx, g, v, od_i, rd_i):
     return None
 
 
-def run(ctx):
+def _run(ctx):
     P = ctx.P
     r1 = ctx.inst("C10.R1", "swap handler: the spread guard is passed, error propagated, before the payout; arguments = (belief, max_spread, named offer, priced return, priced spread, decimals[offer index], decimals[ask index]) per selection branch", floor=7)
     u1 = ctx.inst("C10.U1", "dimension analysis of the decimals normalisation: in each of the three branches offer', return', spread' carry the same decimal exponent", floor=3)
@@ -401,3 +401,9 @@ def run(ctx):
                 r2.fail("C10.R2:%s" % f_["key"], f_["fn"], f_["span"], "[%s] %s" % (i.id, f_["reason"]))
     ctx.extra.setdefault("terms", {})["spread_guard"] = ["%s = floor(%s)  <- %s" % (a, b.show(), o) for a, b, o in T.floors.items]
     ctx.assumptions.append("obligations N1/N2 are stated under the statement's own binding conditions (offer/p >= 1, s <= 1 - 10^-18); the 0/0 abort of spread mode when return and spread are both zero is an abort, not a verdict")
+
+
+def run(ctx):
+    from .. import numeric
+    _run(ctx)
+    numeric.arith_base(ctx, "C10.B1")
